@@ -22,8 +22,10 @@ from pv.export import Unsupported, merge_decls
 N_VALUES = [-1, 0, 1, 2, 3, 4, 5, 6, 7]
 M_VALUES = [1, 2, 3]
 # rows of real coefficients (p, q): non-units so that x/z and x*z differ
-REAL_ROWS = [{"p": [2, 1], "q": [3, 1]}, {"p": [-1, 2], "q": [3, 2]}]
+CP = c19_gen.IMPORT_MODULE + "::" + c19_gen.IMPORTED      # store name of the imported coefficient
+REAL_ROWS = [{"p": [2, 1], "q": [3, 1], CP: [-3, 1]}, {"p": [-1, 2], "q": [3, 2], CP: [3, 2]}]
 FIXED_REAL = {"s": [-3, 2], "t": [5, 2], "w": [1, 1]}      # candidates left passive
+K_VALUES = [1, 2, 3]                                       # row / column selectors u, v
 # contents of passive real arrays (non-zero: they may be divisors)
 PATTERN = [[2, 1], [-1, 1], [1, 2], [1, 1], [-2, 1], [3, 2], [-1, 2], [3, 1], [-3, 2]]
 
@@ -32,7 +34,7 @@ def _rot(k):
     return PATTERN[k:] + PATTERN[:k]
 
 
-PDATA = {"r": _rot(0), "a": _rot(2), "b": _rot(5),
+PDATA = {"r": _rot(0), "a": _rot(2), "b": _rot(5), "d": _rot(3), "e": _rot(7),
          "c": [[1, 1], [2, 1], [-1, 2], [-1, 1], [3, 2], [1, 2], [-2, 1]]}
 
 
@@ -46,7 +48,9 @@ def valuations(dom, quick):
             axes.append([("n", v) for v in N_VALUES])
         elif nm == "m":
             axes.append([("m", v) for v in (M_VALUES[:2] if quick else M_VALUES)])
-    real = any(nm in ("p", "q") for nm in dom)
+        elif nm in ("u", "v"):
+            axes.append([(nm, v) for v in K_VALUES])
+    real = any(nm in ("p", "q", CP) for nm in dom)
     vals = []
     for k, combo in enumerate(itertools.product(*axes)):
         ints = dict(combo)
@@ -148,8 +152,10 @@ def control_names(stmts, acc=None):
 
 
 # ------------------------------------------------------------------ building
+# TypeError: ArrayMixin.same_range() on a single index (array-section statements
+# with a scalar subscript) - PSyAD gives no adjoint, so it counts as a refusal
 REFUSALS = ("TangentLinearError", "VisitorError", "NotImplementedError",
-            "TransformationError")
+            "TransformationError", "TypeError")
 
 
 TEXT_HOOK = None       # set by pv.c19_demo: corrupts the recorded adjoint text
@@ -183,9 +189,15 @@ def _preprocessed(src, active):
     try:
         psy = sem.parse(src)
         preprocess_trans(psy, list(active))
-        return sem.Exporter().routine(sem.routine_named(psy, "k"))["body"]
+        return _exporter().routine(sem.routine_named(psy, "k"))["body"]
     except Exception:   # noqa
         return None
+
+
+def _exporter():
+    ex = sem.Exporter()
+    ex.import_types = {c19_gen.IMPORTED: "r"}
+    return ex
 
 
 def subsets(names, tier):
@@ -202,7 +214,7 @@ def _build(item):
     out = []
     try:
         psy = sem.parse(src)
-        tl = sem.Exporter().routine(sem.routine_named(psy, "k"))
+        tl = _exporter().routine(sem.routine_named(psy, "k"))
     except Unsupported as err:
         return [{"id": kid, "status": "unsupported", "why": "tl: " + str(err)}]
     for active in subsets(cands, tier):
@@ -215,7 +227,7 @@ def _build(item):
             text = TEXT_HOOK(text)      # corruption test (pv.c19_demo) only
         try:
             apsy = sem.parse(text)
-            ad = sem.Exporter().routine(sem.routine_named(apsy, "adj_k"))
+            ad = _exporter().routine(sem.routine_named(apsy, "adj_k"))
             decls = merge_decls(tl["decls"], ad["decls"])
             if tl["subs"] or ad["subs"]:
                 raise Unsupported("calls")
@@ -226,7 +238,8 @@ def _build(item):
             out.append({"id": cid, "status": "crash", "after": text,
                         "why": f"read-back: {type(err).__name__}: {err}"[:300]})
             continue
-        args = [d["name"] for d in decls if d.get("arg")]
+        # inputs: dummy arguments and the imported module variable
+        args = [d["name"] for d in decls if d.get("arg") or d["name"] == CP]
         act = [v for v in args if v in active]
         pas = [v for v in args if v not in active]
         dom = [v for v in pas if not [d for d in decls if d["name"] == v][0]["dims"]]
@@ -530,7 +543,53 @@ def m_increment_first_term_subtracted(rec, clause, vd, finding):
     return bool(hits & set(vd["w"].get("names", [])))
 
 
-MATCHERS = {"increment-first-term-subtracted": m_increment_first_term_subtracted,
+def _arefs(e, name, acc):
+    if isinstance(e, dict):
+        if e.get("k") == "aref" and e.get("name") == name:
+            acc.append(e)
+        for v in e.values():
+            _arefs(v, name, acc)
+    elif isinstance(e, list):
+        for v in e:
+            _arefs(v, name, acc)
+    return acc
+
+
+def m_runtime_aliased_index(rec, clause, vd, finding):
+    '''An assignment to an element/section of an active array X reads X on the
+    right-hand side through a subscript that is a DIFFERENT expression but has
+    the SAME value on the failing valuation (d(u,idx) = p*d(v,idx) + .. with
+    u = v).  AssignmentTrans decides "increment or not" by symbolic equality
+    only, so the adjoint is written for u /= v.  Explains a failing valuation
+    only if every differing subscript pair of such a reference evaluates to
+    equal integers on that valuation (loop variables must match textually).'''
+    if clause != "Transpose" or not rec.get("tlpre"):
+        return False
+    env = _env(rec["case"], vd["vid"])
+    for asg in _assignments(rec["tlpre"]):
+        lhs = asg["lhs"]
+        if lhs.get("k") != "aref" or lhs["name"] not in rec["active"]:
+            continue
+        if lhs["name"] not in vd["w"].get("names", []):
+            continue
+        for ref in _arefs(asg["rhs"], lhs["name"], []):
+            if ref["idx"] == lhs["idx"] or len(ref["idx"]) != len(lhs["idx"]):
+                continue
+            same = True
+            for x, y in zip(lhs["idx"], ref["idx"]):
+                if x == y:
+                    continue
+                vx, vy = _ival(x, env), _ival(y, env)
+                if vx is None or vy is None or vx != vy:
+                    same = False
+                    break
+            if same:
+                return True
+    return False
+
+
+MATCHERS = {"runtime-aliased-index": m_runtime_aliased_index,
+            "increment-first-term-subtracted": m_increment_first_term_subtracted,
             "loop-offset-compound-start": m_offset_compound_start,
             "zero-trip-nonunit-step": m_zero_trip_nonunit_step}
 
@@ -545,7 +604,7 @@ def _procs():
 
 
 def build(tier, procs=None):
-    items = [(kid, body, tier) for kid, body in c19_gen.kernels(tier)]
+    items = [(kid, body, tier) for kid, body in c19_gen.kernels(tier, core.seed())]
     flt = os.environ.get("PV_C19_FILTER")      # regex on the kernel id (binding demos)
     if flt:
         import re
@@ -656,7 +715,10 @@ def run(tier):
         "must not raise an internal error, but it is NOT interpreted: it needs random_number / the "
         "LFRic runtime (DESIGN 5 notes it calls random_number on integer arguments)",
         "passive inputs: n in -1..7, m in 1..3, (p,q) in {(2,3),(-1/2,3/2)}, fixed small non-zero "
-        "contents of passive arrays; arrays a,b,r(0:8), c(0:3,0:2)",
+        "contents of passive arrays; arrays a,b,r(0:8), c(0:3,0:2); array-section family: d(1:3,1:3), "
+        "e(1:3), selectors u,v in 1..3, coefficient cp imported from another module (unresolved type, "
+        "values -3, 3/2) or SUM of a passive section, so that the section statements reach "
+        "AssignmentTrans in array notation; TypeError/TransformationError/NotImplementedError = refusal",
         "valuations on which the tangent-linear code is undefined (out of bounds, undefined read), "
         "changes a passive argument, or is not a homogeneous linear map of the chosen active "
         "variables (checked by TLC on x=0 and x=(1,2,3,..)) are discarded and counted",
